@@ -356,6 +356,89 @@ def cases(ctx):
                         info={"argv": full}))
     finally:
         shutil.rmtree(tmp, ignore_errors=True)
+    # ---- graph arguments given as FILES (incl. the null graph and single vertices), and random graph
+    # arguments stored by `save` and read back: the formula must be the library's on the graph named
+    tmp2 = tempfile.mkdtemp(prefix="verif-c17g-")
+    try:
+        from cnfgen.graphs import readGraph
+        files = {"null.dimacs": "p edge 0 0\n", "one.dimacs": "p edge 1 0\n", "k2.dimacs": "p edge 2 1\ne 1 2\n",
+                 "p3.kthlist": "3\n1 : 0\n2 : 1 0\n3 : 2 0\n", "null.kthlist": "0\n"}
+        for fn, txt in files.items():
+            with open(os.path.join(tmp2, fn), "w") as fh:
+                fh.write(txt)
+
+        def rg(fn, kind="simple"):
+            return readGraph(os.path.join(tmp2, fn), kind)
+        file_cases = []
+        for a in ("null.dimacs", "one.dimacs", "k2.dimacs", "p3.kthlist", "null.kthlist"):
+            for b in ("null.dimacs", "one.dimacs", "k2.dimacs", "null.kthlist"):
+                file_cases.append((["iso", os.path.join(tmp2, a), "-e", os.path.join(tmp2, b)],
+                                   lambda a=a, b=b: cnfgen.GraphIsomorphism(rg(a), rg(b))))
+            file_cases.append((["iso", os.path.join(tmp2, a)], lambda a=a: cnfgen.GraphAutomorphism(rg(a))))
+            file_cases.append((["kcolor", "2", os.path.join(tmp2, a)], lambda a=a: cnfgen.GraphColoringFormula(rg(a), 2)))
+            file_cases.append((["tiling", os.path.join(tmp2, a)], lambda a=a: cnfgen.Tiling(rg(a))))
+            file_cases.append((["subgraph", "-G", os.path.join(tmp2, "p3.kthlist"), "-H", os.path.join(tmp2, a)],
+                               lambda a=a: cnfgen.SubgraphFormula(rg("p3.kthlist"), rg(a), induced=False, symbreak=False)))
+        results = []
+        for argv, lib in file_cases:
+            try:
+                A = quiet(lambda: cli_cnfgen(["cnfgen", "-q"] + argv, mode="formula"))
+                r = compare(A, lib(), "cnfgen " + " ".join(os.path.basename(x) for x in argv))
+            except BaseException as e:  # noqa
+                try:
+                    lib()
+                    r = {"cli_raised": type(e).__name__, "argv": [os.path.basename(x) for x in argv]}
+                except Exception:
+                    r = None   # the library refuses the same request: a clean refusal on both sides
+            results.append(([os.path.basename(x) for x in argv], r))
+        # random graph argument stored by `save`, same seed, graph read back from the file
+        saved = []
+        for i, (cmd, gpos, kind) in enumerate([
+                (["kcolor", "3", "gnp", "6", ".5", "save", "G.gml", "-T", "shuffle"], (2, 7), "simple"),
+                (["tseitin", "random", "gnd", "6", "3", "save", "G.gml"], (2, 7), "simple"),
+                (["php", "glrd", "5", "4", "2", "save", "G.kthlist", "-T", "shuffle"], (1, 7), "bipartite"),
+                (["kclique", "3", "gnm", "6", "8", "save", "G.gml", "-T", "shuffle", "-c"], (2, 7), "simple")]):
+            sseed = rng.randint(1, 10 ** 6)
+            path = os.path.join(tmp2, "saved{}_{}".format(i, cmd[gpos[1] - 1]))
+            full = list(cmd)
+            full[gpos[1] - 1] = path
+            try:
+                A = quiet(lambda: cli_cnfgen(["cnfgen", "-q", "-S", str(sseed)] + full, mode="formula"))
+                again = full[:gpos[0]] + [path] + full[gpos[1]:]
+                B = quiet(lambda: cli_cnfgen(["cnfgen", "-q", "-S", str(sseed)] + again, mode="formula"))
+                r = compare(A, B, "random graph + save vs the saved file, seed {}: {}".format(sseed, " ".join(cmd)))
+            except BaseException as e:  # noqa
+                r = {"cli_raised": type(e).__name__, "argv": cmd, "msg": str(e)[:200]}
+            saved.append((cmd, r))
+    finally:
+        shutil.rmtree(tmp2, ignore_errors=True)
+    for argv, r in results:
+        full = ["cnfgen", "-q"] + argv
+        out.append(Case("graphfile", split_req(full), lambda full=full: split_impl(full), lambda r=r: r,
+                        cls=argv[0], info={"argv": full}))
+    for cmd, r in saved:
+        full = ["cnfgen", "-q"] + cmd
+        out.append(Case("savedgraph", split_req(full), lambda full=full: split_impl(full), lambda r=r: r,
+                        cls=cmd[0], info={"argv": full}))
+    # ---- generator events of a seeded run: seed at parse time, seed again before the build (model: phase3)
+    from harness.props import C07 as H07
+    for cmd in (["randkcnf", "3", "6", "5"], ["kcolor", "3", "gnp", "6", ".5", "-T", "shuffle"], ["php", "5", "4", "2"]):
+        sseed = rng.randint(0, 10 ** 6)
+        argv = ["cnfgen", "--seed", str(sseed)] + cmd
+
+        def impl(argv=argv, sseed=sseed):
+            random.seed(99)
+            with H07.Recorder() as rec:
+                quiet(lambda: cli_cnfgen(argv, mode="formula"))
+            ev = rec.events
+            before = 0
+            for e in ev:
+                if e[0] == "seed":
+                    break
+                before += 1
+            nseeds = sum(1 for e in ev if e == ("seed", sseed))
+            return ok("{} {} {}".format(1 if ev and ev[0] == ("seed", sseed) else 0, before, nseeds))
+        out.append(Case("seedevents", req("phase3", sseed, 1), impl, None, cls=cmd[0], info={"argv": argv}))
     # ---- split correspondence on adversarial argv
     toks = ["-T", "php", "5", "-q", "xor", "2", "-Tx", "--T", "T", "-t", "", "shuffle", "-T"]
     for _ in range(150 if tier == "quick" else 2000):
